@@ -48,6 +48,7 @@ class Features:
         self.name_clash = 0.3  # re-use short names across namespaces
         self.utf8_bytes = False  # bytes data are UTF-8 encodings (bytes->string promotion stays decodable)
         self.unique_shorts = False  # unqualified names unique within a schema
+        self.ambiguous_union_defaults = False  # known finding F-UNION-DEFAULT-BRANCH (C01): excluded by construction
         self.__dict__.update(kw)
 
 
@@ -231,7 +232,10 @@ class SchemaBuilder:
             fld = {"name": fname, "type": ftype, "aliases": []}
             if f.defaults and d.p(f.default_prob):
                 try:
-                    fld["default"] = self.json_default(ftype, 0)
+                    dflt = self.json_default(ftype, 0)
+                    if ftype["k"] == "union" and not f.ambiguous_union_defaults and union_default_ambiguous(ftype, self.table, dflt):
+                        raise _NoDefault()
+                    fld["default"] = dflt
                 except _NoDefault:
                     pass
             node["fields"].append(fld)
@@ -288,6 +292,41 @@ class SchemaBuilder:
 
 class _NoDefault(Exception):
     pass
+
+
+def union_default_ambiguous(union_node, table, dj):
+    """The JSON default, taken as a Python datum, also conforms to a branch other than the first
+    (fastavro then may encode the default of an omitted field under that other branch)."""
+    try:
+        return any(B.conforms(b, table, dj) for b in union_node["branches"][1:])
+    except Exception:
+        return True
+
+
+def schema_has_ambiguous_union_default(node, table, seen=None):
+    if seen is None:
+        seen = set()
+    k = node["k"]
+    if k == "ref":
+        return False
+    if k == "record":
+        if node["name"] in seen:
+            return False
+        seen.add(node["name"])
+        for f in node["fields"]:
+            t = f["type"]
+            if t["k"] == "union" and "default" in f and union_default_ambiguous(t, table, f["default"]):
+                return True
+            if schema_has_ambiguous_union_default(t, table, seen):
+                return True
+        return False
+    if k == "array":
+        return schema_has_ambiguous_union_default(node["items"], table, seen)
+    if k == "map":
+        return schema_has_ambiguous_union_default(node["values"], table, seen)
+    if k == "union":
+        return any(schema_has_ambiguous_union_default(b, table, seen) for b in node["branches"])
+    return False
 
 
 # ----------------------------------------------------------------------------- rendering
